@@ -51,7 +51,10 @@ func targetDuration(segments []muxerSegment) int {
 
 	// EXTINF, when rounded to the nearest integer, must be <= EXT-X-TARGETDURATION
 	for _, sog := range segments {
-		v := int(math.Round(sog.getDuration().Seconds()))
+		// EXTINF is written with 5 decimals: round the duration in the same way before
+		// rounding it to the nearest integer, otherwise a duration like 0.499999999
+		// is printed as 0.50000 (that rounds to 1) while the target duration stays 0.
+		v := int(math.Round(sog.getDuration().Round(10 * time.Microsecond).Seconds()))
 		if v > ret {
 			ret = v
 		}
